@@ -204,23 +204,36 @@ class Interp:
         pos = list(args)
         if recv is not None:
             pos = [recv] + pos
+        # a scenario driver (depth 0) binds the arguments of the function it evaluates by the signature it was written for: when that
+        # signature has changed (parameters renamed, reordered, made keyword-only) the scenario cannot be run - no verdict
+        mismatch = (lambda msg: Unmodelled("the scenario binds the signature this function had when the scenario was written: " + msg)) \
+            if self.depth == 0 else (lambda msg: TypeViolation(f"{f.short}: {msg}"))
         for n, v in zip(names, pos):
             env[n] = v
         if len(pos) > len(names):
             if a.vararg is None:
-                raise TypeViolation(f"{f.short} called with too many arguments")
+                raise mismatch("called with too many positional arguments")
             env[a.vararg.arg] = VTuple(tuple(pos[len(names):]))
         elif a.vararg is not None:
             env[a.vararg.arg] = VTuple(())
+        kwonly = [x.arg for x in a.kwonlyargs]
+        bound_pos = set(names[:len(pos)])
         for k, v in kwargs.items():
+            if k not in names and k not in kwonly and a.kwarg is None:
+                raise mismatch(f"unexpected keyword argument {k}")
+            if k in bound_pos and not (recv is not None and k == names[0]):
+                raise mismatch(f"multiple values for argument {k}")
             env[k] = v
         # defaults
         for n, dnode in zip(names[len(names) - len(defaults):], defaults):
             if n not in env:
                 env[n] = self.eval_const_default(dnode, f)
-        for n in names:
+        for x, dnode in zip(a.kwonlyargs, a.kw_defaults):
+            if x.arg not in env and dnode is not None:
+                env[x.arg] = self.eval_const_default(dnode, f)
+        for n in names + kwonly:
             if n not in env:
-                raise TypeViolation(f"{f.short}: missing argument {n}")
+                raise mismatch(f"missing argument {n}")
         sub = Interp(self.model, self.sp, self.trail, self.hooks, self.depth + 1)
         sub.class_ctx = self.class_ctx
         sub.fresh_n = self.fresh_n
